@@ -20,8 +20,10 @@ def gen_hunk_diff(rng, nl=b'\n'):
         for i, k in enumerate(kinds):
             payloads = [b'x', b'-- a', b'++ b', b'', b'@@ -1 +1 @@', b'text']
             # a line is terminated by the diff's newline only: a bare CR inside a line of an
-            # LF-ended diff (a bare LF inside a line of a CRLF-ended diff) does not start a new line
-            payloads += [b'x\r-y', b'a\rb', b'\r+'] if nl == b'\n' else [b'x\n+y', b'p\nq', b'\n-']
+            # LF-ended diff (a bare LF inside a line of a CRLF-ended diff) does not start a new line,
+            # and a CR at the end of a later line of an LF-ended diff (a stray carriage return being
+            # removed) does not make the diff a DOS one: only the first line decides
+            payloads += [b'x\r-y', b'a\rb', b'\r+', b'stray\r', b'\r'] if nl == b'\n' else [b'x\n+y', b'p\nq', b'\n-']
             out.append(k.encode() + rng.choice(payloads))
             if i < n - 1 and rng.random() < 0.1:
                 out.append(b'\\ No newline at end of file')
